@@ -17,6 +17,9 @@ CATALOG = {
     },
     "C02": {
         "drivers": [("call", {"quick": 400, "thorough": 15000}, {})],
+        "models": [{"module": "MC_Algebra", "cfg": {"quick": "MC_Algebra_quick", "thorough": "MC_Algebra_thorough"},
+                    "extract": "algebra_vectors", "replay": "run_algebra_vector", "chunk": 40,
+                    "limit": {"quick": 2000, "thorough": 60000}}],
     },
     "C03": {
         "drivers": [("construct", {"quick": 400, "thorough": 20000}, {})],
@@ -41,6 +44,9 @@ CATALOG = {
     },
     "C06": {
         "drivers": [("deriv", {"quick": 500, "thorough": 20000}, {})],
+        "models": [{"module": "MC_Algebra", "cfg": {"quick": "MC_Algebra_quick", "thorough": "MC_Algebra_thorough"},
+                    "extract": "algebra_vectors", "replay": "run_algebra_vector", "chunk": 40,
+                    "limit": {"quick": 2000, "thorough": 60000}}],
     },
     "C07": {
         "drivers": [("order", {"quick": 500, "thorough": 20000}, {})],
@@ -79,6 +85,9 @@ CATALOG = {
     },
     "C12": {
         "drivers": [("dtype", {"quick": 500, "thorough": 20000}, {})],
+        "models": [{"module": "MC_DType", "cfg": {"quick": "MC_DType", "thorough": "MC_DType"},
+                    "extract": "dtype_vectors", "replay": "run_dtype_vector", "chunk": 13,
+                    "limit": {"quick": 1000, "thorough": 1000}}],
     },
     "C15": {
         "drivers": [("optsweep", {"quick": 500, "thorough": 20000}, {})],
@@ -91,6 +100,9 @@ CATALOG = {
     },
     "C20": {
         "drivers": [("keys", {"quick": 400, "thorough": 20000}, {})],
+        "models": [{"module": "MC_Keys", "cfg": {"quick": "MC_Keys_quick", "thorough": "MC_Keys_thorough"},
+                    "extract": "key_vectors", "replay": "run_key_vector", "chunk": 60,
+                    "limit": {"quick": 2000, "thorough": 60000}}],
     },
     "C17": {
         "drivers": [("frame", {"quick": 400, "thorough": 15000}, {})],
@@ -149,10 +161,6 @@ def run_model_stage(pid: str, m: dict, tier: str, seed: int, wd: str):
              "expected_violation_found": bool(m.get("violation_expected")),
              "depth": res["depth"], "wall_s": round(res["wall_s"], 1), "completed": res["completed"],
              "actions": {k: v for k, v in res["coverage"].items() if k.startswith(m["module"] + ".")}}
-    for act in m.get("required_actions", []):
-        c = stats["actions"].get("%s.%s" % (m["module"], act))
-        if not c or c["generated"] == 0:
-            raise tlc.MachineryError("action %s of %s was never taken: the model is vacuous" % (act, cfg))
     tasks = []
     if dump:
         path = dump if os.path.exists(dump) else dump + (".dot" if m.get("dump") == "dot" else ".dump")
@@ -165,6 +173,8 @@ def run_model_stage(pid: str, m: dict, tier: str, seed: int, wd: str):
             k = (len(items) + limit - 1) // limit
             items = items[seed % k::k]
         stats["programs_replayed"] = len(items)
+        if not items:
+            raise tlc.MachineryError("bounded model %s produced no test vectors: the model is vacuous" % cfg)
         tasks = pool.replay_tasks(m["replay"], items, pid, kw=m.get("kw"), chunk=m.get("chunk", 200))
         os.remove(path)
     return stats, tasks
